@@ -6,5 +6,9 @@ import (
 	"verifharness/vt"
 )
 
-func TestProp(t *testing.T)   { vt.RunAll(t, 2000) }
+func TestProp(t *testing.T) {
+	probeKnownFindings(t)
+	vt.RunAll(t, 6000)
+}
+
 func TestReplay(t *testing.T) { vt.ReplayAll(t) }
